@@ -37,8 +37,12 @@ func (c RawConfiguration) Multicast(ctx context.Context, d QuorumCallData, opts 
 	}
 
 	// nodeStream sends an empty reply on replyChan when the message has been sent
-	// wait until the message has been sent
+	// wait until the message has been sent, or the context has ended
 	for ; sentMsgs > 0; sentMsgs-- {
-		<-replyChan
+		select {
+		case <-replyChan:
+		case <-ctx.Done():
+			return
+		}
 	}
 }
